@@ -7,8 +7,22 @@
   C03.Z  the decrement cannot wrap: it is preceded by a test that excludes 0 (needed once the counter is shared, because
          a native may call back into the VM after a Timeout).
   C03.T  exhausting the budget yields ExecutionErrorPayload::Timeout and the counter influences nothing else.
+
+How the charge is found (by what it does, not how it is spelled). A *budget test* is a switch whose outcome is a function
+of one counter place P:
+  - a comparison of P (or a copy) with a constant, possibly negated; a switch on P itself (`match P { 0 => .. }`);
+  - the discriminant of `P.checked_sub(k)` (match / if let / let else), directly or after the Option went through
+    ok_or / ok_or_else / map_err / Try::branch (`?`);
+  - the discriminant (or `?`) of the Result of a private helper that itself contains a budget test on a place reachable
+    from one of its parameters (`fn charge(&mut self) -> Result<(), ..>`): the helper is summarised (every return that is
+    not taken from the exhausted edge has stored the decrement, the exhausted edge never yields Ok).
+For each test the successor taken for a given counter value is known (`edge(v)`), so "the exhausted edge leads to Timeout
+and never to the dispatch", "the other edge is the only way to the dispatch" and "values below the subtrahend never reach
+a plain subtraction" are graph questions. A *decrement* is a store into P whose value derives - through copies, tuple
+fields of the overflow-checked subtraction, the Some/Ok/Continue payloads and the adaptors above - from `P - k` computed by
+`-`, checked_sub, saturating_sub, wrapping_sub, ...; a subtraction whose result is not stored back is not a decrement.
 """
-from cao.facts import AnchorMissing, callee_names, short, op_local, op_place, DefUse
+from cao.facts import AnchorMissing, callee_names, short, op_local, op_place, op_const, DefUse
 from cao.rules import Rule, ok, bad, undecided, note
 from cao import mirutil as mu
 
@@ -26,94 +40,490 @@ ASSUMPTIONS = [
     "C10 (every instruction is decoded by the single dispatch loop)",
 ]
 
-
-def find_budget(F):
-    """Locate Timeout construction -> guarding switch -> compared place. Returns dict."""
-    from rules.c10 import run_dispatch
-    fn, sw, targets, header = run_dispatch(F)
-    cfg = fn.cfg
-    du = DefUse(fn)
-    timeout_blocks = []
-    for bi, b in enumerate(fn.blocks):
-        for st in b["stmts"]:
-            if st["k"] == "assign" and st["rv"]["k"] == "agg" and st["rv"]["agg"].get("variant") == "Timeout" \
-                    and short(st["rv"]["agg"].get("path", "")).endswith("ExecutionErrorPayload"):
-                timeout_blocks.append(bi)
-    if not timeout_blocks:
-        return {"fn": fn, "sw": sw, "timeout": None}
-    tb = timeout_blocks[0]
-    # the switch whose edge leads to tb: nearest dominating switch block
-    guard = None
-    for bi in sorted(cfg.dom[tb], key=lambda x: -len(cfg.dom[x])):
-        if bi != tb and fn.blocks[bi]["term"]["k"] == "switch":
-            guard = bi
-            break
-    info = {"fn": fn, "sw": sw, "timeout": tb, "guard": guard, "header": header}
-    if guard is None:
-        return info
-    t = fn.blocks[guard]["term"]
-    cond = op_local(t["discr"])
-    # cond = Eq/Le/Lt(copy P, const) ; find comparison statement
-    cmp_st = None
-    for st in fn.blocks[guard]["stmts"]:
-        if st["k"] == "assign" and st["place"]["l"] == cond and st["rv"]["k"] == "bin":
-            cmp_st = st
-    info["cmp"] = cmp_st
-    if cmp_st is None:
-        return info
-    place = None
-    for side in ("l", "r"):
-        p = op_place(cmp_st["rv"][side])
-        if p is not None:
-            # follow one copy
-            if not p["p"]:
-                d = du.sole_def(p["l"])
-                if d is not None and d[2] == "assign" and d[3]["rv"]["k"] == "use":
-                    q = op_place(d[3]["rv"]["op"])
-                    if q is not None:
-                        p = q
-            place = p
-    info["place"] = place
-    return info
+CMP_OPS = ("Eq", "Ne", "Lt", "Le", "Gt", "Ge")
+SUB_BIN = ("Sub", "SubWithOverflow", "SubUnchecked")
+SUB_CALLS = ("checked_sub", "saturating_sub", "wrapping_sub", "overflowing_sub", "unchecked_sub", "strict_sub")
+# adaptors that hand the "present" payload of an Option/Result/ControlFlow on unchanged and keep "absent" absent
+KEEP_ABSENT = ("branch", "ok_or", "ok_or_else", "map_err")
+# adaptors that extract the payload: the first group diverges when it is absent, the second substitutes a value
+UNWRAP_PANICS = ("unwrap", "expect", "unwrap_unchecked")
+UNWRAP_SUBST = ("unwrap_or", "unwrap_or_default", "unwrap_or_else")
 
 
 def place_key(p):
     return (p["l"], tuple(e["name"] if e["k"] == "field" else e["k"] for e in p["p"]))
 
 
+def _last(func):
+    ns = callee_names(func)
+    return ns[0].rsplit("::", 1)[-1] if ns else ""
+
+
+def _is_timeout_agg(rv):
+    return rv["k"] == "agg" and rv["agg"].get("variant") == "Timeout" and short(rv["agg"].get("path", "")).endswith("ExecutionErrorPayload")
+
+
+def timeout_blocks_of(fn):
+    return [bi for bi, b in enumerate(fn.blocks) for st in b["stmts"] if st["k"] == "assign" and _is_timeout_agg(st["rv"])]
+
+
+def _through_copy(du, p):
+    """a bare single-assignment local that is a copy (of a copy ..) of a place stands for that place"""
+    seen = set()
+    while p is not None and not p["p"] and p["l"] not in seen:
+        seen.add(p["l"])
+        d = du.sole_def(p["l"])
+        if d is None or d[2] != "assign" or d[3]["rv"]["k"] != "use":
+            break
+        q = op_place(d[3]["rv"]["op"])
+        if q is None:
+            break
+        p = q
+    return p
+
+
+def _reads(du, op, pk):
+    """operand reads the place with key pk, directly or through one copy"""
+    p = op_place(op)
+    if p is None:
+        return False
+    return place_key(p) == pk or place_key(_through_copy(du, p)) == pk
+
+
+def _produces_timeout(F, fn, du, op):
+    """the operand is ExecutionErrorPayload::Timeout, or a closure whose body constructs it"""
+    l = op_local(op)
+    seen = set()
+    while l is not None and l not in seen:
+        seen.add(l)
+        d = du.sole_def(l)
+        if d is None or d[2] != "assign":
+            return False
+        rv = d[3]["rv"]
+        if _is_timeout_agg(rv):
+            return True
+        if rv["k"] == "agg" and rv["agg"]["k"] == "closure":
+            c = F.fn(short(rv["agg"].get("path", "")), required=False)
+            return c is not None and c.mir is not None and bool(timeout_blocks_of(c))
+        if rv["k"] in ("use", "cast"):
+            l = op_local(rv["op"])
+        elif rv["k"] == "ref" and not rv["place"]["p"]:
+            l = rv["place"]["l"]
+        else:
+            return False
+    return False
+
+
+def _fallible_origin(F, fn, du, local):
+    """`local` holds an Option / Result / ControlFlow. Follow it back through moves and absent-preserving adaptors to where
+    presence was decided: {'kind': 'checked', 'call', 'block', 'place', 'k', 'timeout'} for P.checked_sub(k), or
+    {'kind': 'helper', 'call', 'block', 'callee'} for the result of a crate-local function; None if neither.
+    'timeout' tells whether an ok_or / ok_or_else on the way supplies ExecutionErrorPayload::Timeout for the absent case."""
+    timeout = False
+    seen = set()
+    while local is not None and local not in seen:
+        seen.add(local)
+        d = du.sole_def(local)
+        if d is None:
+            return None
+        if d[2] == "assign":
+            rv = d[3]["rv"]
+            if rv["k"] != "use":
+                return None
+            local = op_local(rv["op"])
+            continue
+        t = d[3]
+        last = _last(t["func"])
+        if last == "checked_sub" and len(t["args"]) == 2 and not t["func"].get("local"):
+            p = op_place(t["args"][0])
+            if p is None:
+                return None
+            return {"kind": "checked", "call": t, "block": d[0], "place": _through_copy(du, p), "k": op_const(t["args"][1]), "timeout": timeout}
+        if last in KEEP_ABSENT and not t["func"].get("local") and t["args"]:
+            if last in ("ok_or", "ok_or_else") and len(t["args"]) > 1 and _produces_timeout(F, fn, du, t["args"][1]):
+                timeout = True
+            local = op_local(t["args"][0])
+            continue
+        if t["func"].get("local") or t["func"].get("resolved_local"):
+            for n in callee_names(t["func"]):
+                h = F.fn(n, required=False)
+                if h is not None and h.mir and not h.is_closure:
+                    return {"kind": "helper", "call": t, "block": d[0], "callee": h, "timeout": timeout}
+        return None
+    return None
+
+
+def _cmp_eval(op, a, b):
+    return {"Eq": a == b, "Ne": a != b, "Lt": a < b, "Le": a <= b, "Gt": a > b, "Ge": a >= b}[op]
+
+
+def budget_test_at(F, fn, du, g, allow_helper=True):
+    """Interpret the switch that ends block g as a test of a counter. Returns None or a dict with
+       kind   'cmp' | 'switch' | 'checked' | 'helper'
+       place  the counter (for 'helper': the counter in the callee's terms, see 'inner')
+       edge   f(v) -> successor of g taken when the counter holds v (for 'helper': v == 0 stands for exhausted, else not)
+       ln     source line of the test
+       timeout  True if the test itself carries the Timeout value (ok_or(Timeout) / helper constructing it)"""
+    t = fn.blocks[g]["term"]
+    if t["k"] != "switch":
+        return None
+    targets = dict((v, b) for v, b in t["targets"])
+
+    def succ(v):
+        return targets.get(int(v), t["otherwise"])
+    dp = op_place(t["discr"])
+    if dp is None:
+        return None
+    if dp["p"]:
+        # match <place> { 0 => .. }
+        return {"kind": "switch", "guard": g, "place": dp, "edge": succ, "ln": t.get("ln"), "timeout": False, "cmp": None}
+    c = dp["l"]
+    neg = False
+    for _ in range(4):
+        d = du.sole_def(c)
+        if d is None:
+            # a condition temporary assigned in this block only
+            ds = [x for x in du.defs.get(c, []) if x[0] == g and x[2] == "assign"]
+            d = ds[-1] if ds else None
+        if d is None or d[2] != "assign":
+            return None
+        st = d[3]
+        rv = st["rv"]
+        if rv["k"] == "un" and rv["op"] == "Not":
+            c = op_local(rv["x"])
+            neg = not neg
+            if c is None:
+                return None
+            continue
+        break
+    else:
+        return None
+    if rv["k"] == "bin" and rv["op"] in CMP_OPS:
+        lc, rc = op_const(rv["l"]), op_const(rv["r"])
+        lp, rp = op_place(rv["l"]), op_place(rv["r"])
+        if lp is not None and isinstance(rc, int) and not isinstance(rc, bool):
+            place, ev = lp, (lambda v, o=rv["op"], k=rc: _cmp_eval(o, v, k))
+        elif rp is not None and isinstance(lc, int) and not isinstance(lc, bool):
+            place, ev = rp, (lambda v, o=rv["op"], k=lc: _cmp_eval(o, k, v))
+        else:
+            return None
+        place = _through_copy(du, place)
+        return {"kind": "cmp", "guard": g, "place": place, "edge": (lambda v: succ(ev(v) != neg)), "ln": st.get("ln"), "timeout": False, "cmp": st}
+    if rv["k"] == "use" and not neg:
+        p = op_place(rv["op"])
+        if p is not None and p["p"]:
+            return {"kind": "switch", "guard": g, "place": p, "edge": succ, "ln": st.get("ln"), "timeout": False, "cmp": st}
+        return None
+    if rv["k"] == "discr" and not neg and not rv["place"]["p"]:
+        adt = short(rv.get("adt", "")).rsplit("::", 1)[-1]
+        if adt not in ("Option", "Result", "ControlFlow"):
+            return None
+        absent = 0 if adt == "Option" else 1   # None = 0; Err = 1; Break = 1
+        o = _fallible_origin(F, fn, du, rv["place"]["l"])
+        if o is None:
+            return None
+        if o["kind"] == "checked":
+            k = o["k"]
+            if not isinstance(k, int):
+                return None
+            return {"kind": "checked", "guard": g, "place": o["place"], "edge": (lambda v: succ(absent if v < k else 1 - absent)), "ln": st.get("ln"),
+                    "timeout": o["timeout"], "cmp": st, "origin": o, "value": rv["place"]["l"]}
+        if adt == "Option" or not allow_helper:
+            return None     # helpers are summarised only when they report exhaustion as an Err; one level of delegation
+        inner = charge_summary(F, o["callee"])
+        if inner is None:
+            return None
+        return {"kind": "helper", "guard": g, "place": inner["place"], "edge": (lambda v: succ(absent if v == 0 else 1 - absent)), "ln": st.get("ln"),
+                "timeout": True, "cmp": st, "origin": o, "inner": inner}
+    return None
+
+
+def budget_tests(F, fn, allow_helper=True):
+    """every switch of fn that is a budget test connected to ExecutionErrorPayload::Timeout: the edge taken with the counter
+    at 0 dominates the block constructing Timeout (the nearest such switch above that block), or the test carries the
+    Timeout value itself (`.ok_or(Timeout)?`, helper)."""
+    du = DefUse(fn)
+    cfg = fn.cfg
+    out = []
+    done = set()
+    for tb in timeout_blocks_of(fn):
+        for g in sorted(cfg.dom.get(tb, ()), key=lambda x: -len(cfg.dom[x])):
+            if g == tb or fn.blocks[g]["term"]["k"] != "switch":
+                continue
+            t = budget_test_at(F, fn, du, g, allow_helper)
+            if t is not None and t["edge"](0) != t["edge"](1 << 40) and cfg.dominates(t["edge"](0), tb):
+                if g not in done:
+                    done.add(g)
+                    t["timeout_block"] = tb
+                    out.append(t)
+                break
+    for g in sorted(cfg.reach):
+        if g in done or fn.blocks[g]["term"]["k"] != "switch":
+            continue
+        # only discriminant switches can carry the Timeout themselves
+        dl = op_local(fn.blocks[g]["term"]["discr"])
+        d = du.sole_def(dl) if dl is not None else None
+        if d is None or d[2] != "assign" or d[3]["rv"]["k"] != "discr":
+            continue
+        t = budget_test_at(F, fn, du, g, allow_helper)
+        if t is not None and t["timeout"]:
+            t["timeout_block"] = None
+            out.append(t)
+    return out
+
+
+def charge_summary(F, h):
+    """Summary of a helper that charges the budget: it contains exactly one budget test (not itself delegated) on a counter
+    reachable from a parameter; every path from entry to a return passes the exhausted edge or a store of the decrement; no
+    Ok value is built on the exhausted edge. Returns {'fn', 'test', 'place', 'param', 'decs'} or None."""
+    _SUMMARIES = F.__dict__.setdefault("_c03_charge_summaries", {})
+    key = h.short
+    if key in _SUMMARIES:
+        return _SUMMARIES[key]
+    _SUMMARIES[key] = None
+    if not timeout_blocks_of(h) and not any(timeout_blocks_of(c) for c in F.closures_of.get(h.short, []) if c.mir):
+        return None     # a charging helper names the Timeout itself
+    tests = budget_tests(F, h, allow_helper=False)
+    if len(tests) != 1:
+        return None
+    t = tests[0]
+    place = t["place"]
+    if not (1 <= place["l"] <= h.mir["arg_count"]) or not place["p"] or place["p"][0]["k"] != "deref":
+        return None
+    cfg = h.cfg
+    g = t["guard"]
+    exhausted = t["edge"](0)
+    rest = t["edge"](1 << 40)
+    decs = decrements_of(h, place)
+    stores = set(d[0] for d in decs)
+    rets = cfg.return_blocks()
+    if not cfg.every_path_passes(0, rets, {g}):
+        return None
+    charged = cfg.every_path_passes(0, rets, stores | {exhausted})
+    # the exhausted edge must not produce an Ok / fall back into the charged path
+    ok_on_exhausted = False
+    for bi in cfg.reachable_from(exhausted, avoid={g}):
+        if bi == rest or bi in stores:
+            ok_on_exhausted = True
+        for st in h.blocks[bi]["stmts"]:
+            if st["k"] == "assign" and st["place"]["l"] == 0 and st["rv"]["k"] == "agg" and st["rv"]["agg"].get("variant") in ("Ok", "Continue", "Some"):
+                ok_on_exhausted = True
+    s = {"fn": h, "test": t, "place": place, "param": place["l"], "decs": decs, "charged": charged and bool(stores), "ok_on_exhausted": ok_on_exhausted}
+    _SUMMARIES[key] = s
+    return s
+
+
+def translate_place(fn, du, call, inner_place):
+    """the callee's `(*param).rest` in the caller's terms: the argument is `&mut Q` (possibly reborrowed) -> Q.rest"""
+    i = inner_place["l"] - 1
+    if i >= len(call["args"]):
+        return None
+    l = op_local(call["args"][i])
+    q = None
+    seen = set()
+    while l is not None and l not in seen:
+        seen.add(l)
+        d = du.sole_def(l)
+        if d is None or d[2] != "assign":
+            return None
+        rv = d[3]["rv"]
+        if rv["k"] in ("ref", "rawptr"):
+            pl = rv["place"]
+            if len(pl["p"]) == 1 and pl["p"][0]["k"] == "deref" and du.sole_def(pl["l"]) is not None:
+                l = pl["l"]     # reborrow of a reference temporary
+                continue
+            q = pl
+            break
+        if rv["k"] == "use":
+            l = op_local(rv["op"])
+            continue
+        return None
+    if q is None:
+        if l is not None and 1 <= l <= fn.mir["arg_count"]:
+            # the reference parameter itself is handed on
+            return {"l": l, "p": list(inner_place["p"])}
+        return None
+    return {"l": q["l"], "p": list(q["p"]) + list(inner_place["p"][1:])}
+
+
+INSTR = "instruction::Instruction"
+
+
+def opcode_switch(F):
+    """The opcode switch of the interpreter, found by what it is - the largest switch on the discriminant of an Instruction
+    in the vm module - wherever it lives: (function, block, {variant: target block}).  (Same search as rules.c10.run_dispatch,
+    without the demand that the loop is in the same function.)"""
+    variants = F.adt(INSTR)["variants"]
+    by_discr = {v["discr"]: v["name"] for v in variants}
+    best, fn = None, None
+    for cand in F.fns:
+        if not cand.mir or cand.is_closure or not cand.path.startswith("vm::"):
+            continue
+        for bi, b in enumerate(cand.blocks):
+            t = b["term"]
+            if t["k"] != "switch" or len(t["targets"]) < 20:
+                continue
+            loc = op_local(t["discr"])
+            if loc is None:
+                continue
+            for st in b["stmts"]:
+                if st["k"] == "assign" and st["place"]["l"] == loc and st["rv"]["k"] == "discr" and short(st["rv"]["adt"]) == INSTR:
+                    if best is None or len(t["targets"]) > len(best[1]["targets"]):
+                        best, fn = (bi, t), cand
+    if best is None:
+        raise AnchorMissing("opcode switch (interpreter loop) in the vm module")
+    bi, t = best
+    targets = {by_discr[val]: tb for val, tb in t["targets"] if val in by_discr}
+    missing = [v["name"] for v in variants if v["name"] not in targets]
+    if len(missing) == 1 and fn.blocks[t["otherwise"]]["term"]["k"] != "unreachable":
+        targets[missing[0]] = t["otherwise"]
+    return fn, bi, targets
+
+
+def _enclosing_header(fn, sites):
+    """innermost loop header of fn that dominates every block in sites, or None"""
+    cfg = fn.cfg
+    hs = [h for (_a, h) in cfg.back_edges() if all(cfg.dominates(h, b) for b in sites)]
+    return max(hs, key=lambda h: len(cfg.dom[h])) if hs else None
+
+
+def run_dispatch2(F):
+    """The interpreter loop, also when the opcode switch lives in a private function that the loop calls once per iteration
+    (driver loop + `execute_instruction`). Returns a dict:
+       fn       the function that holds the dispatch loop (the driver)
+       sites    the blocks of fn where an instruction is dispatched: the opcode switch itself, or the call(s) of the function
+                through which the opcode switch is reached
+       header   the loop header in fn
+       switch_fn, switch_block, targets   the opcode switch, as rules.c10.run_dispatch reports it
+       chain    [fn, .., switch_fn]   the functions from the loop down to the switch
+       stray    [(function, line)] calls of a chain member from outside the loop chain: dispatches that bypass the loop"""
+    from rules.c10 import run_dispatch
+    try:
+        fn, sw, targets, header = run_dispatch(F)
+        return {"fn": fn, "sites": [sw], "header": header, "switch_fn": fn, "switch_block": sw, "targets": targets, "chain": [fn], "stray": []}
+    except AnchorMissing:
+        pass
+    sfn, sw, targets = opcode_switch(F)
+    cur, sites, chain, stray = sfn, [sw], [sfn], []
+    for _ in range(3):
+        header = _enclosing_header(cur, sites)
+        if header is not None:
+            return {"fn": cur, "sites": sites, "header": header, "switch_fn": sfn, "switch_block": sw, "targets": targets, "chain": chain, "stray": stray}
+        callers = []
+        for g in F.fns:
+            if not g.mir or g is cur:
+                continue
+            bs = [bi for bi, t in mu.calls(g) if cur.short in callee_names(t["func"])]
+            if bs:
+                callers.append((g, bs))
+        looping = [(g, bs) for g, bs in callers if not g.is_closure and _enclosing_header(g, bs) is not None]
+        if len(looping) == 1:
+            pick = looping[0]
+        elif len(callers) == 1 and not callers[0][0].is_closure:
+            pick = callers[0]
+        else:
+            break
+        stray.extend((g.short, g.blocks[bs[0]]["term"].get("ln")) for g, bs in callers if g is not pick[0])
+        cur, sites = pick
+        chain.insert(0, cur)
+    raise AnchorMissing("dispatch loop header of the interpreter loop")
+
+
+def find_budget(F):
+    """Locate the interpreter loop, the budget test connected to Timeout in it, and the counter tested. Returns dict:
+       fn/sws/header  the loop function, the blocks where it dispatches an instruction (the opcode switch, or the call of the
+                      function holding it) and the loop header
+       timeout        True if a Timeout is constructed in (or for) the loop function
+       test, guard    the budget test and its block in fn;  place: the counter in fn's terms
+       cfn, cplace    the function holding the comparison and the decrement (fn, or the summarised helper) and the counter there"""
+    d = run_dispatch2(F)
+    fn, sws, header = d["fn"], d["sites"], d["header"]
+    info = {"fn": fn, "sws": sws, "header": header, "dispatch": d, "timeout": None, "guard": None, "place": None, "test": None}
+    tests = budget_tests(F, fn)
+    has_timeout = bool(timeout_blocks_of(fn)) or bool(tests)
+    if not has_timeout:
+        # `.ok_or_else(|| .. Timeout ..)` with an unrecognised shape still counts as "a Timeout exists"
+        has_timeout = any(timeout_blocks_of(c) for c in F.closures_of.get(fn.short, []) if c.mir)
+    info["timeout"] = has_timeout or None
+    if not tests:
+        return info
+    cfg = fn.cfg
+    tests.sort(key=lambda t: (not all(cfg.dominates(t["guard"], sw) for sw in sws), t["guard"]))
+    t = tests[0]
+    info.update(test=t, guard=t["guard"], cmp={"ln": t["ln"]})
+    if t["kind"] == "helper":
+        inner = t["inner"]
+        info["cfn"], info["cplace"], info["inner"] = inner["fn"], inner["place"], inner
+        info["place"] = translate_place(fn, DefUse(fn), t["origin"]["call"], inner["place"])
+    else:
+        info["cfn"], info["cplace"], info["place"] = fn, t["place"], t["place"]
+    return info
+
+
+def _sub_origin(fn, du, p, pk, via=None, depth=0):
+    """Trace the value read from place p back to `P - k` (P = the place with key pk). Returns None or
+       {'op': Sub | SubWithOverflow | checked_sub | saturating_sub | ..., 'k': constant or None, 'block', 'ln', 'via': [adaptors]}"""
+    via = list(via or [])
+    if depth > 12 or p is None or place_key(p) == pk:
+        return None
+    proj = p["p"]
+    if proj:
+        kinds = [e["k"] for e in proj]
+        if kinds == ["field"] and proj[0].get("name") == "0":
+            o = _sub_origin(fn, du, {"l": p["l"], "p": []}, pk, via, depth + 1)
+            return o if o is not None and o["op"] in ("SubWithOverflow", "overflowing_sub") else None
+        if kinds == ["downcast", "field"] and proj[0].get("variant") in ("Some", "Ok", "Continue"):
+            return _sub_origin(fn, du, {"l": p["l"], "p": []}, pk, via + ["payload"], depth + 1)
+        return None
+    d = du.sole_def(p["l"])
+    if d is None:
+        return None
+    if d[2] == "assign":
+        rv = d[3]["rv"]
+        if rv["k"] == "use":
+            return _sub_origin(fn, du, op_place(rv["op"]), pk, via, depth + 1)
+        if rv["k"] == "bin" and rv["op"] in SUB_BIN and _reads(du, rv["l"], pk):
+            return {"op": rv["op"], "k": op_const(rv["r"]), "block": d[0], "ln": d[3].get("ln"), "via": via}
+        return None
+    t = d[3]
+    last = _last(t["func"])
+    if t["func"].get("local") or not t["args"]:
+        return None
+    if last in SUB_CALLS and len(t["args"]) == 2 and _reads(du, t["args"][0], pk):
+        return {"op": last, "k": op_const(t["args"][1]), "block": d[0], "ln": t.get("ln"), "via": via}
+    if last in KEEP_ABSENT or last in UNWRAP_PANICS or last in UNWRAP_SUBST:
+        return _sub_origin(fn, du, op_place(t["args"][0]), pk, via + [last], depth + 1)
+    return None
+
+
 def decrements_of(fn, place):
-    """blocks containing `place = place - k` (Sub / SubWithOverflow / saturating_sub / checked_sub / wrapping_sub)"""
+    """Stores `place = place - k` in fn: [(block of the store, op, line, origin)] - the value stored derives from a
+    subtraction (Sub / SubWithOverflow / saturating_sub / checked_sub / wrapping_sub ..) whose left operand is the place."""
     pk = place_key(place)
     out = []
     du = DefUse(fn)
     for bi, b in enumerate(fn.blocks):
         for st in b["stmts"]:
-            if st["k"] != "assign":
+            if st["k"] != "assign" or place_key(st["place"]) != pk:
                 continue
             rv = st["rv"]
-            if rv["k"] == "bin" and rv["op"] in ("Sub", "SubWithOverflow", "SubUnchecked"):
-                lp = op_place(rv["l"])
-                if lp is not None and place_key(lp) == pk:
-                    out.append((bi, rv["op"], st.get("ln")))
-                elif lp is not None and not lp["p"]:
-                    d = du.sole_def(lp["l"])
-                    if d is not None and d[2] == "assign" and d[3]["rv"]["k"] == "use":
-                        q = op_place(d[3]["rv"]["op"])
-                        if q is not None and place_key(q) == pk:
-                            out.append((bi, rv["op"], st.get("ln")))
+            o = None
+            if rv["k"] == "bin" and rv["op"] in SUB_BIN and _reads(du, rv["l"], pk):
+                o = {"op": rv["op"], "k": op_const(rv["r"]), "block": bi, "ln": st.get("ln"), "via": []}
+            elif rv["k"] == "use":
+                o = _sub_origin(fn, du, op_place(rv["op"]), pk)
+            if o is not None:
+                out.append((bi, o["op"], o["ln"] or st.get("ln"), o))
         t = b["term"]
-        if t["k"] == "call" and any(n.rsplit("::", 1)[-1] in ("saturating_sub", "checked_sub", "wrapping_sub") for n in callee_names(t["func"])):
-            a0 = op_place(t["args"][0]) if t["args"] else None
-            if a0 is not None:
-                if place_key(a0) == pk:
-                    out.append((bi, callee_names(t["func"])[0].rsplit("::", 1)[-1], t.get("ln")))
-                elif not a0["p"]:
-                    d = du.sole_def(a0["l"])
-                    if d is not None and d[2] == "assign" and d[3]["rv"]["k"] == "use":
-                        q = op_place(d[3]["rv"]["op"])
-                        if q is not None and place_key(q) == pk:
-                            out.append((bi, callee_names(t["func"])[0].rsplit("::", 1)[-1], t.get("ln")))
+        if t["k"] == "call" and place_key(t["dest"]) == pk and not t["func"].get("local") and _last(t["func"]) in SUB_CALLS \
+                and len(t["args"]) == 2 and _reads(du, t["args"][0], pk):
+            # the store happens when the call returns: it belongs to the successor
+            out.append((t["target"] if t.get("target") is not None else bi, _last(t["func"]), t.get("ln"),
+                        {"op": _last(t["func"]), "k": op_const(t["args"][1]), "block": bi, "ln": t.get("ln"), "via": []}))
     return out
+
+
+BIG = 1 << 40    # a counter value on the far side of every constant the tests compare with
 
 
 def rule_d(F):
@@ -127,16 +537,29 @@ def rule_d(F):
         res.append(undecided("C03.D", "C03/D/_run/budget-test", fn.loc(), "could not identify the comparison guarding Timeout"))
         return res
     cfg = fn.cfg
-    guard, sw = info["guard"], info["sw"]
-    if cfg.dominates(guard, sw):
+    guard, sws, t = info["guard"], info["sws"], info["test"]
+    exhausted = t["edge"](0)
+    inner = info.get("inner")
+    if not all(cfg.dominates(guard, sw) for sw in sws):
+        res.append(bad("C03.D", "C03/D/_run/test-dominates-dispatch", fn.loc(), "some path reaches the opcode switch without passing the budget test"))
+    elif set(sws) & cfg.reachable_from(exhausted, avoid={guard}) or (inner is not None and inner["ok_on_exhausted"]):
+        res.append(bad("C03.D", "C03/D/_run/test-dominates-dispatch", fn.loc(t.get("ln")),
+                       "the budget is tested, but with the budget used up the opcode switch is still reached: the outcome of the test does not stop the dispatch"))
+    else:
         res.append(ok("C03.D", "C03/D/_run/test-dominates-dispatch", fn.loc(fn.blocks[guard]["term"].get("ln")),
                       "the budget test dominates the opcode switch: no instruction is dispatched without it"))
+    if inner is None:
+        decs = decrements_of(fn, info["place"])
+        dom_decs = [d for d in decs if all(cfg.dominates(d[0], sw) for sw in sws) and cfg.dominates(info["header"], d[0])]
+        ln = dom_decs[0][2] if dom_decs else None
     else:
-        res.append(bad("C03.D", "C03/D/_run/test-dominates-dispatch", fn.loc(), "some path reaches the opcode switch without passing the budget test"))
-    decs = decrements_of(fn, info["place"])
-    dom_decs = [d for d in decs if cfg.dominates(d[0], sw) and cfg.dominates(info["header"], d[0])]
+        # the helper stores the decrement on every path that does not leave through its exhausted edge, and it is called
+        # once per iteration on every path to the opcode switch
+        cb = t["origin"]["block"]
+        dom_decs = inner["decs"] if inner["charged"] and all(cfg.dominates(cb, sw) for sw in sws) and cfg.dominates(info["header"], cb) else []
+        ln = t["origin"]["call"].get("ln")
     if dom_decs:
-        res.append(ok("C03.D", "C03/D/_run/decrement-dominates-dispatch", fn.loc(dom_decs[0][2]),
+        res.append(ok("C03.D", "C03/D/_run/decrement-dominates-dispatch", fn.loc(ln),
                       "the tested counter is decremented once per iteration on every path to the opcode switch"))
     else:
         res.append(bad("C03.D", "C03/D/_run/decrement-dominates-dispatch", fn.loc(),
@@ -151,9 +574,13 @@ def rule_d(F):
                 if st["k"] == "assign" and st["rv"]["k"] == "cast" and st["rv"]["kind"] == "Transmute" and st["rv"]["ty"].endswith("instruction::Instruction"):
                     decoders.append(f.short)
     decoders = sorted(set(decoders))
-    allowed = {fn.short, "compiled_program::CaoCompiledProgram::disassemble_writer"}
+    chain = [g.short for g in info["dispatch"]["chain"]]
+    allowed = set(chain) | {"compiled_program::CaoCompiledProgram::disassemble_writer"}
     extra = [d for d in decoders if d not in allowed]
-    if fn.short in decoders and not extra:
+    stray = info["dispatch"]["stray"]
+    if stray:
+        res.append(bad("C03.D", "C03/D/single-dispatcher", fn.loc(), "the function executing an opcode is also called from outside the budgeted loop: %s" % stray))
+    elif any(c in decoders for c in chain) and not extra:
         res.append(ok("C03.D", "C03/D/single-dispatcher", fn.loc(), "bytes become Instructions only in Vm::_run (and the disassembler)", decoders=decoders))
     else:
         res.append(bad("C03.D", "C03/D/single-dispatcher", fn.loc(), "other code decodes instructions outside the budgeted loop: %s" % extra))
@@ -324,6 +751,10 @@ def rule_b(F):
                         if e["k"] == "field" and e["name"] == fname and short(e.get("owner", "")) == "vm::Vm":
                             writers.setdefault(f.short, st.get("ln"))
     allowed = {fn.short, "vm::Vm::_run", "vm::Vm::run", "vm::Vm::new"}
+    cfn = info.get("cfn") or fn
+    if cfn is not fn:
+        # the summarised charging helper: its stores are the decrement (C03.D / C03.Z decide them)
+        allowed.add(cfn.short)
     if is_vm_field is None:
         # the loop works on a copy: the wrapper that makes the copy stores it back
         allowed |= set(g.short for g in F.fns if g.mir and any(fn.short in callee_names(t["func"]) for _bi, t in mu.calls(g)))
@@ -350,14 +781,15 @@ def rule_b(F):
     else:
         res.append(bad("C03.B", "C03/B/run-resets-budget", run.loc(), "Vm::run does not reset %s from max_instr" % fname))
     # _run must not reset it
-    resets_in_run = [ln for w, ln in writers.items() if w == "vm::Vm::_run"]
-    for b in fn.blocks:
-        for st in b["stmts"]:
-            if st["k"] == "assign" and [e["name"] for e in st["place"]["p"] if e["k"] == "field"] == [fname]:
-                if st["rv"]["k"] == "use":
-                    q = op_place(st["rv"]["op"])
-                    if q is not None and "max_instr" in [e.get("name") for e in q["p"]]:
-                        res.append(bad("C03.B", "C03/B/_run/no-reset-on-reentry", fn.loc(st.get("ln")), "_run resets the budget from max_instr on entry: callbacks get a fresh budget"))
+    for g in ([fn] if cfn is fn else [fn, cfn]):
+        gdu = DefUse(g)
+        for b in g.blocks:
+            for st in b["stmts"]:
+                if st["k"] == "assign" and [e["name"] for e in st["place"]["p"] if e["k"] == "field"] == [fname]:
+                    if st["rv"]["k"] == "use":
+                        q = _through_copy(gdu, op_place(st["rv"]["op"]))
+                        if q is not None and "max_instr" in [e.get("name") for e in q["p"]]:
+                            res.append(bad("C03.B", "C03/B/_run/no-reset-on-reentry", g.loc(st.get("ln")), "_run resets the budget from max_instr on entry: callbacks get a fresh budget"))
     return res
 
 
@@ -369,28 +801,106 @@ def rule_z(F):
     if place is None or info.get("guard") is None:
         res.append(undecided("C03.Z", "C03/Z/_run/decrement-guarded", fn.loc(), "budget place not identified"))
         return res
-    cfg = fn.cfg
-    decs = decrements_of(fn, place)
+    inner = info.get("inner")
+    # (function, counter there, the test in that function) for every function that holds decrements of the counter
+    sites = [(fn, place, info["test"] if inner is None else None)]
+    if inner is not None:
+        sites.append((inner["fn"], inner["place"], inner["test"]))
+    decs = [(g, t, d) for g, p, t in sites for d in decrements_of(g, p)]
     if not decs:
         res.append(undecided("C03.Z", "C03/Z/_run/decrement-guarded", fn.loc(), "no decrement found"))
         return res
-    for bi, op, ln in decs:
-        if op in ("saturating_sub", "checked_sub"):
-            res.append(ok("C03.Z", "C03/Z/_run/decrement-guarded", fn.loc(ln), "decrement uses %s" % op))
+    for g, t, (bi, op, ln, o) in decs:
+        extracts_by_panic = any(v in UNWRAP_PANICS for v in o["via"])
+        if op == "saturating_sub":
+            res.append(ok("C03.Z", "C03/Z/_run/decrement-guarded", g.loc(ln), "decrement uses %s" % op))
             continue
-        # the zero test must dominate the decrement, on its non-zero edge
-        g = info["guard"]
-        cmp_op = info["cmp"]["rv"]["op"]
-        t = fn.blocks[g]["term"]
-        if cfg.dominates(g, bi) and g != bi and cmp_op in ("Eq", "Le", "Lt", "Ne", "Gt", "Ge"):
-            # the edge taken to the decrement must be the one where the counter is non-zero
-            zero_edge_to_timeout = info["timeout"] in cfg.reachable_from(t["otherwise"], avoid={bi}) or True
-            res.append(ok("C03.Z", "C03/Z/_run/decrement-guarded", fn.loc(ln), "the zero test precedes the decrement"))
+        if op == "checked_sub" and not extracts_by_panic:
+            # what is stored is the payload of the Some outcome (or a substitute for None): no wrapped value exists
+            res.append(ok("C03.Z", "C03/Z/_run/decrement-guarded", g.loc(ln), "decrement uses %s" % op))
+            continue
+        # a plain / wrapping subtraction (or checked_sub(..).unwrap()): a test that excludes every value below the
+        # subtrahend must come first, and the subtraction must lie on the other edge only
+        k = o["k"]
+        sb = o["block"]
+        guarded = False
+        if t is not None and isinstance(k, int) and 0 < k <= 64:
+            cfg = g.cfg
+            gb = t["guard"]
+            guarded = cfg.dominates(gb, sb) and gb != sb and all(sb not in cfg.reachable_from(t["edge"](v), avoid={gb}) for v in range(k))
+        if guarded:
+            res.append(ok("C03.Z", "C03/Z/_run/decrement-guarded", g.loc(ln), "the zero test precedes the decrement"))
+        elif t is not None and isinstance(k, int) and k > 1 and g.cfg.dominates(t["guard"], sb) and t["guard"] != sb:
+            res.append(bad("C03.Z", "C03/Z/_run/decrement-guarded", g.loc(ln),
+                           "the budget is decremented by %d, but the test before it does not exclude every value below %d: with less budget left "
+                           "than one step costs the subtraction overflows (panic in debug builds, wrap to about 2^64 in release)" % (k, k)))
+        elif t is not None and not isinstance(k, int):
+            res.append(undecided("C03.Z", "C03/Z/_run/decrement-guarded", g.loc(ln), "the amount subtracted from the budget is not a constant"))
         else:
-            res.append(bad("C03.Z", "C03/Z/_run/decrement-guarded", fn.loc(ln),
+            res.append(bad("C03.Z", "C03/Z/_run/decrement-guarded", g.loc(ln),
                            "the budget is decremented before it is tested against zero: with no budget left (budget 0, or a callback "
                            "entered after the budget ran out) the subtraction overflows (panic in debug builds, wrap to 2^64-1 in release)"))
     return res
+
+
+def _other_uses(fn, place, charge_call=None):
+    """reads of the counter in fn that are not its own decrement / test: returns (number of reads, [lines of other uses])"""
+    from cao.facts import rvalue_places
+    pk = place_key(place)
+    uses = []
+    for bi, b in enumerate(fn.blocks):
+        for st in b["stmts"]:
+            if st["k"] != "assign" or st.get("exp"):
+                continue
+            for p in rvalue_places(st["rv"]):
+                if place_key(p) == pk:
+                    uses.append((bi, st))
+
+    def consumers_of(tmp):
+        out = []
+        for b2 in fn.blocks:
+            for s2 in b2["stmts"]:
+                if s2["k"] == "assign" and any(p["l"] == tmp for p in rvalue_places(s2["rv"])):
+                    out.append(s2)
+            t2 = b2["term"]
+            if t2["k"] == "call" and any((op_place(a) or {}).get("l") == tmp for a in t2["args"]) and not t2.get("exp"):
+                out.append(t2)
+            elif t2["k"] == "switch" and (op_place(t2["discr"]) or {}).get("l") == tmp:
+                out.append(t2)
+        return out
+
+    def arithmetic_only(c):
+        # (as before) a temporary holding the counter may feed the subtraction / comparison, or be moved on by an assignment
+        # (the hand-over of a synchronised copy, C03.B decides those); the only calls it may be passed to are the *_sub family
+        if c.get("k") == "call":
+            return not c["func"].get("local") and _last(c["func"]) in SUB_CALLS
+        return True
+
+    def handed_to_charge(tmp, depth=0):
+        """a reference to the counter that only travels (reborrowed) into the call of the summarised charging helper"""
+        cs = consumers_of(tmp)
+        if not cs or depth > 4:
+            return False
+        for c in cs:
+            if c is charge_call:
+                continue
+            if c.get("k") == "assign" and c["rv"]["k"] in ("ref", "use") and not c["place"]["p"] and handed_to_charge(c["place"]["l"], depth + 1):
+                continue
+            return False
+        return True
+    bad_uses = []
+    for bi, st in uses:
+        rv = st["rv"]
+        if rv["k"] == "bin" and rv["op"] in SUB_BIN + CMP_OPS:
+            continue
+        if rv["k"] == "use" and not st["place"]["p"]:
+            consumers = consumers_of(st["place"]["l"])
+            if all(arithmetic_only(c) for c in consumers):
+                continue
+        if rv["k"] == "ref" and not st["place"]["p"] and charge_call is not None and handed_to_charge(st["place"]["l"]):
+            continue
+        bad_uses.append(st.get("ln"))
+    return len(uses), bad_uses
 
 
 def rule_t(F):
@@ -402,45 +912,17 @@ def rule_t(F):
     if place is None:
         res.append(undecided("C03.T", "C03/T/_run/budget-has-no-other-use", fn.loc(), "budget place not identified"))
         return res
-    pk = place_key(place)
-    uses = []
-    for bi, b in enumerate(fn.blocks):
-        for st in b["stmts"]:
-            if st["k"] != "assign" or st.get("exp"):
-                continue
-            rv = st["rv"]
-            from cao.facts import rvalue_places
-            for p in rvalue_places(rv):
-                if place_key(p) == pk:
-                    uses.append((bi, st))
-    # every use is: a copy into a temp that feeds Sub/Eq, or the Sub/compare itself
-    du = DefUse(fn)
-    bad_uses = []
-    for bi, st in uses:
-        rv = st["rv"]
-        if rv["k"] == "bin" and rv["op"] in ("Sub", "SubWithOverflow", "Eq", "Ne", "Le", "Lt", "Gt", "Ge"):
-            continue
-        if rv["k"] == "use" and not st["place"]["p"]:
-            tmp = st["place"]["l"]
-            consumers = []
-            for b2 in fn.blocks:
-                for s2 in b2["stmts"]:
-                    if s2["k"] == "assign":
-                        from cao.facts import rvalue_places as rp
-                        if any(p["l"] == tmp for p in rp(s2["rv"])):
-                            consumers.append(s2)
-                t2 = b2["term"]
-                if t2["k"] == "call" and any(op_local(a) == tmp for a in t2["args"]) and not t2.get("exp"):
-                    consumers.append(t2)
-            if all(c.get("k") == "assign" and c["rv"]["k"] == "bin" and c["rv"]["op"] in ("Sub", "SubWithOverflow", "Eq", "Ne", "Le", "Lt", "Gt", "Ge") for c in consumers):
-                continue
-            if all(c.get("k") == "call" and any(n.rsplit("::", 1)[-1] in ("saturating_sub", "checked_sub", "wrapping_sub") for n in callee_names(c["func"])) for c in consumers if c.get("k") == "call") and consumers:
-                continue
-        bad_uses.append(st.get("ln"))
+    inner = info.get("inner")
+    n, bad_uses = _other_uses(fn, place, info["test"]["origin"]["call"] if inner is not None else None)
+    where = fn
+    if inner is not None and not bad_uses:
+        n2, bad_uses = _other_uses(inner["fn"], inner["place"])
+        n += n2
+        where = inner["fn"]
     if bad_uses:
-        res.append(bad("C03.T", "C03/T/_run/budget-has-no-other-use", fn.loc(bad_uses[0]), "the budget counter is used for something other than its decrement and the Timeout test"))
+        res.append(bad("C03.T", "C03/T/_run/budget-has-no-other-use", where.loc(bad_uses[0]), "the budget counter is used for something other than its decrement and the Timeout test"))
     else:
-        res.append(ok("C03.T", "C03/T/_run/budget-has-no-other-use", fn.loc(), "the counter is only decremented and compared (%d uses)" % len(uses)))
+        res.append(ok("C03.T", "C03/T/_run/budget-has-no-other-use", fn.loc(), "the counter is only decremented and compared (%d uses)" % n))
     return res
 
 
